@@ -14,7 +14,7 @@ import functools
 import collections
 import numpy as np
 import schedula as sh
-from decimal import Decimal, ROUND_HALF_UP
+from decimal import Decimal, ROUND_HALF_UP, ROUND_DOWN, ROUND_UP
 from . import (
     get_error, raise_errors, is_number, flatten, wrap_ufunc, wrap_func,
     replace_empty, Error, xfilter, wrap_impure_func, COMPILING, to_number,
@@ -356,19 +356,21 @@ def xroman(num, form=0):
 FUNCTIONS['ROMAN'] = wrap_ufunc(xroman, input_parser=lambda *a: a)
 
 
-def round_up(x):
-    return float(Decimal(x).quantize(0, rounding=ROUND_HALF_UP))
-
-
-def xround(x, d, func=round_up):
-    d = 10 ** int(d)
-    v = func(abs(x * d)) / d
-    return -v if x < 0 else v
+def xround(x, d, rounding=ROUND_HALF_UP):
+    # The decimal form of the number is rounded (like Excel) and not its binary
+    # product by a power of ten (e.g., 1.15 * 100 = 114.99999999999999).
+    # Below -309 digits every double is already smaller than the unit.
+    v, d = Decimal(repr(float(x))), max(int(d), -309)
+    if v.is_finite() and v.as_tuple().exponent < -d:  # Digits to drop.
+        return float(v.quantize(Decimal(1).scaleb(-d), rounding=rounding))
+    return x
 
 
 FUNCTIONS['ROUND'] = wrap_ufunc(xround)
-FUNCTIONS['ROUNDDOWN'] = wrap_ufunc(functools.partial(xround, func=math.floor))
-FUNCTIONS['ROUNDUP'] = wrap_ufunc(functools.partial(xround, func=math.ceil))
+FUNCTIONS['ROUNDDOWN'] = wrap_ufunc(
+    functools.partial(xround, rounding=ROUND_DOWN)
+)
+FUNCTIONS['ROUNDUP'] = wrap_ufunc(functools.partial(xround, rounding=ROUND_UP))
 FUNCTIONS['SEC'] = FUNCTIONS['_XLFN.SEC'] = wrap_ufunc(
     functools.partial(xcot, func=np.cos)
 )
@@ -431,8 +433,8 @@ FUNCTIONS['TAN'] = wrap_ufunc(np.tan)
 FUNCTIONS['TANH'] = wrap_ufunc(np.tanh)
 
 
-def xtrunc(x, d=0, func=math.trunc):
-    return xround(x, d=d, func=func)
+def xtrunc(x, d=0):
+    return xround(x, d=d, rounding=ROUND_DOWN)
 
 
 FUNCTIONS['TRUNC'] = wrap_ufunc(xtrunc)
